@@ -100,6 +100,7 @@ class World:
         self.choose = None       # generation mode: callable(real events) -> ready dict, called at select time
         self.opened = {}         # work id -> descriptors its tasks opened
         self.dead = None
+        self.slowest = 0.0       # longest wall-clock time of one _run_once
         self.pins = []
         stale = open_fds_from(BASE) if pin else []
         for fd in stale:         # left over by an earlier case that died half-way
@@ -226,6 +227,8 @@ class World:
             return self.dead
         self.ready = ready
         self.delivered = []
+        import time as _time
+        t0 = _time.monotonic()
         try:
             self.loop.run_until_complete(self.ex._run_once())
         except Exception as e:
@@ -233,6 +236,7 @@ class World:
             return e
         finally:
             self.rounds += 1
+            self.slowest = max(self.slowest, _time.monotonic() - t0)
         return None
 
     def reap(self):
@@ -391,7 +395,10 @@ def scripted_world():
 
 class TrackedSocket(socket.socket):
     """a real socket that counts the explicit close() calls made on it (a socket that is merely
-    dropped is closed by the interpreter without close() being called)"""
+    dropped is closed by the interpreter without close() being called) and reports calls that would
+    block the worker: recv()/send() on a socket the code left in blocking / timeout mode while nothing
+    is pending / no room is left.  Such a call is recorded and ends at once with the TimeoutError the
+    real call would end with after its timeout (10 s in production), so the check costs no waiting."""
 
     def close(self):
         log = getattr(self, 'closelog', None)
@@ -399,11 +406,31 @@ class TrackedSocket(socket.socket):
             log[self.serial] = log.get(self.serial, 0) + 1
         super().close()
 
+    def _would_block(self, op):
+        import select
+        if self.gettimeout() == 0 or self.fileno() < 0:
+            return
+        r, w_, _ = select.select([self] if op == 'recv' else [], [self] if op == 'send' else [], [], 0)
+        if not (r or w_):
+            blocked = getattr(self, 'blocked', None)
+            if blocked is not None:
+                blocked.append((op, self.serial))
+            raise TimeoutError(errno.ETIMEDOUT, 'timed out')
 
-def tracked(sock, closelog, serial):
+    def recv(self, *a):
+        self._would_block('recv')
+        return super().recv(*a)
+
+    def send(self, *a):
+        self._would_block('send')
+        return super().send(*a)
+
+
+def tracked(sock, closelog, serial, blocked=None):
     t = TrackedSocket(sock.family, sock.type, sock.proto, fileno=sock.detach())
     t.closelog = closelog
     t.serial = serial
+    t.blocked = blocked
     return t
 
 
@@ -520,6 +547,7 @@ class RealWorld(World):
         self.near = []            # every proxy-side socket object created for connections (weak references)
         self.nearinfo = []        # what each of them is: ('client', addr) / ('up', addr)
         self.closelog = {}        # serial -> number of explicit close() calls
+        self.blocked = []         # (op, serial) of calls that would have blocked the worker
         self.up_faults = []       # per-connect faults dicts for FaultySocket
 
     def _pair(self, info=None):
@@ -533,8 +561,10 @@ class RealWorld(World):
         serial = len(self.nearinfo)
         self.nearinfo.append(info)
         self.closelog[serial] = 0
-        near = tracked(near, self.closelog, serial)
-        near.setblocking(False)
+        near = tracked(near, self.closelog, serial, self.blocked)
+        # the mode the real code would find it in: an accepted client socket is blocking until the handler's
+        # initialize(), new_socket_connection() returns a socket with a timeout (DEFAULT_TIMEOUT)
+        near.settimeout(None if info and info[0] == 'client' else 10.0)
         self.near.append(weakref.ref(near))
         return near, far
 
@@ -916,7 +946,9 @@ def gen_sel(rng, nops=30):
 # layer 2: real HttpProtocolHandler works in every role, several connections
 # ---------------------------------------------------------------------------
 
-REAL_ARGS = ('--enable-web-server', '--enable-reverse-proxy')
+RECVBUF = 8192
+REAL_ARGS = ('--enable-web-server', '--enable-reverse-proxy',
+             '--server-recvbuf-size', str(RECVBUF), '--client-recvbuf-size', str(RECVBUF))
 _RP = None
 
 
@@ -1018,8 +1050,44 @@ def real_world(tcp=False):
 RESP = b'HTTP/1.1 200 OK\r\nContent-Length: 5\r\n\r\nhello'
 
 
+def sized_response(total):
+    """an HTTP response of exactly `total` bytes"""
+    head = b'HTTP/1.1 200 OK\r\nContent-Length: %06d\r\n\r\n'
+    body = b'y' * (total - len(head % 0))
+    return head % len(body) + body
+
+
+def sized_request(prefix, total):
+    """a POST request of exactly `total` bytes whose first line and Host header are `prefix`"""
+    head = prefix + b'Content-Length: %06d\r\n\r\n'
+    body = b'q' * (total - len(head % 0))
+    return head % len(body) + body
+
+
 def good_script(role, i):
     """the well-behaved script of connection number i in a role; upstream port identifies the connection"""
+    if role.startswith('x:'):
+        # payloads that fill the receive buffers exactly (N x --server-recvbuf-size from the origin,
+        # --client-recvbuf-size from the client); the origin keeps its connection open
+        base, n = role[2:].split('*')
+        n = int(n)
+        resp = sized_response(n * RECVBUF).hex()
+        if base == 'fwd':
+            return [['cs', (b'GET http://up%d.example:%d/x HTTP/1.1\r\nHost: up%d.example:%d\r\n\r\n' % (i, 8000 + i, i, 8000 + i)).hex()],
+                    ['us', resp], ['pump'], ['cc']]
+        if base == 'rev':
+            return [['cs', (b'GET /r%d HTTP/1.1\r\nHost: x\r\n\r\n' % i).hex()], ['us', resp], ['pump'], ['cc']]
+        if base == 'tun':
+            return [['cs', (b'CONNECT up%d.example:%d HTTP/1.1\r\nHost: up%d.example:%d\r\n\r\n' % (i, 8000 + i, i, 8000 + i)).hex()],
+                    ['cs', (b'c' * (n * RECVBUF)).hex()], ['pump'], ['us', (b's' * (n * RECVBUF)).hex()], ['pump'], ['cc']]
+        if base == 'post':
+            req = sized_request(b'POST http://up%d.example:%d/p HTTP/1.1\r\nHost: up%d.example:%d\r\n' % (i, 8000 + i, i, 8000 + i),
+                                n * RECVBUF)
+            return [['cs', req.hex()], ['pump'], ['us', RESP.hex()], ['cc']]
+        if base == 'revpost':
+            req = sized_request(b'POST /r%d HTTP/1.1\r\nHost: x\r\n' % i, n * RECVBUF)
+            return [['cs', req.hex()], ['pump'], ['us', resp], ['pump'], ['cc']]
+        raise ValueError(role)
     if role == 'fwd':
         return [['cs', (b'GET http://up%d.example:%d/a?b=%d HTTP/1.1\r\nHost: up%d.example:%d\r\nUser-Agent: t\r\n\r\n'
                         % (i, 8000 + i, i, i, 8000 + i)).hex()],
@@ -1056,8 +1124,9 @@ def good_script(role, i):
 
 
 PLUGIN_ROLES = ['p:' + m for m in PLUGIN_MODES]
-ROLES = ['fwd', 'fwdka', 'post', 'tun', 'web404', 'webroute', 'rev', 'revka'] + PLUGIN_ROLES
-CANARY_ROLES = ['fwd', 'post', 'tun', 'web404', 'webroute', 'rev', 'p:reject-after', 'p:no-connect']
+EXACT_ROLES = ['x:%s*%d' % (b, n) for b in ('fwd', 'rev', 'tun', 'post', 'revpost') for n in (1, 2, 3)]
+ROLES = ['fwd', 'fwdka', 'post', 'tun', 'web404', 'webroute', 'rev', 'revka'] + PLUGIN_ROLES + EXACT_ROLES
+CANARY_ROLES = ['fwd', 'post', 'tun', 'web404', 'webroute', 'rev', 'p:reject-after', 'p:no-connect'] + EXACT_ROLES
 
 
 def _fault(name):
@@ -1150,6 +1219,8 @@ def drive(w, case, res, rounds_per_step=3, final_rounds=8):
             up.send(bytes.fromhex(op[1]))
         elif op[0] == 'usn' and up is not None:
             up.send(bytes(65 + (k % 23) for k in range(op[1])))      # op[1] bytes of origin output
+        elif op[0] == 'pump':
+            pass
         elif op[0] == 'cc':
             c.client.close()
         elif op[0] == 'cr':
@@ -1220,6 +1291,8 @@ def run_real(case, rounds_per_step=3, final_rounds=8):
             gc.collect()
             res['leaked'] = w.leaked()
         res['closes'] = close_report(w)
+        res['blocked'] = list(w.blocked)
+        res['slowest'] = w.slowest
         return res
     finally:
         w.close()
